@@ -301,11 +301,12 @@ class LBRun(object):
       idle0 = bool(lb._idle_endpoints)
       # an expansion is pending while the channel it added is still opening (modelled from the harness's own channels,
       # not read from the balancer's bookkeeping)
-      pending0 = any(n.channel._open_ar is not None and not n.channel._open_ar.ready() for n in lb._heap[1:])
+      pending0 = any(n.channel._open_ar is not None and not n.channel._open_ar.ready() and n.channel in self.expanded
+                     for n in lb._heap[1:])
       # ... and for a few event-loop turns after it has opened: the balancer learns of the completion through a
       # continuation that runs on a later turn (each turn costs 1 us of virtual time)
-      pending_maybe = not pending0 and any(n.channel.open_done_at is not None and loop.now() - n.channel.open_done_at < 200e-6
-                                           for n in lb._heap[1:])
+      pending_maybe = not pending0 and any(n.channel in self.expanded and n.channel.open_done_at is not None and
+                                           loop.now() - n.channel.open_done_at < 200e-6 for n in lb._heap[1:])
       healthy0 = healthy()
       total0 = lb._total
       ctx['adjust'] += 1
@@ -387,8 +388,18 @@ class LBRun(object):
           self.viol('C06', 'below-min-size', 'contraction %d -> %d with min_size %d and %d members' % (s0, s1, a['min_size'], members))
       return r
 
+    orig_try_expand = lb._TryExpandAperture
+    self.expanded = set()      # channels that entered the aperture through an expansion (not through a join)
+
+    def try_expand(*a, **k):
+      before = set(n.channel for n in lb._heap[1:])
+      r = orig_try_expand(*a, **k)
+      self.expanded.update(n.channel for n in lb._heap[1:] if n.channel not in before)
+      return r
+
     lb._AdjustAperture = adjust
     lb._ContractAperture = contract
+    lb._TryExpandAperture = try_expand
     # wall clock as the aperture's smoothing sees it: virtual time plus a skew that an op may step backwards
     import scales.varz as _varz
     run = self
